@@ -90,6 +90,14 @@ def run(ctx, facts):
         C13.require_verified_reset(ctx, facts, [C13.FY], "RESETBEFORE")
         C04._resetbefore(ctx, facts, SMH2 + "sketch")
     C04._counter(ctx, facts)
+    ctx.rule("REINIT", C04.RULES["REINIT"])
+    ctx.rule("SKIP", C04.RULES["SKIP"])
+    C13.require_verified_reset(ctx, facts, [C13.SMH, C13.SMH2], "REINIT")
+    for fid in [SMH + "sketch"] + ([SMH2 + "sketch"] if has2 else []):
+        C04.skip_rule(ctx, facts, fid)
+    C04.deleg_slice(ctx, facts, SMH + "sketch_slice")
+    if has2:
+        C04.deleg_slice(ctx, facts, SMH2 + "sketch_slice")
     draw_rule(ctx, facts)
     for fid in C14.COUNTING[2:]:
         if facts.has(fid):
